@@ -182,6 +182,9 @@ def run(pid, tier, seed):
             sets.append((files, argv, sources, meta, expected, ranks, dts))
             for label, env, plan in schedules(rng, n, sources, plans, tier):
                 jobs.append((si, label, env, plan))
+            # (and as the program runs when nobody watches: no event sink, no holds)
+            for _ in range(2 if tier == "quick" else 6):
+                jobs.append((si, "free-untraced", {"_notrace": True}, None))
             # argument permutation: PathId order follows the command line
             if n >= 2 and si % 3 == 0:
                 perm = list(range(n))
